@@ -60,7 +60,7 @@ fn expected(art: &ArtStore, uri: &str) -> (Expect, Vec<(String, String, usize)>)
                     return Some(code);
                 }
             }
-            off += art.limit.min(data.len() - off);
+            off += art.chunk_len(off).min(data.len() - off);
             if off >= data.len() {
                 break;
             }
@@ -119,7 +119,7 @@ impl Property for C17 {
         let per_round = grid.len() + specials;
         let reps = cfg.tier.pick(2, 6) as usize;
         let uri = URIS[(i % URIS.len() as u64) as usize];
-        let mut art = ArtStore { embedded: None, cover: None, limit: 64, readpicture_supported: true, embedded_ack: 0, cover_ack: 0, ack_after_partial_output: i % 2 == 1, ack_from_offset: None };
+        let mut art = ArtStore { embedded: None, cover: None, limit: 64, readpicture_supported: true, embedded_ack: 0, cover_ack: 0, ack_after_partial_output: i % 2 == 1, ack_from_offset: None, later_chunks: Vec::new() };
         let k = (i as usize) % per_round;
         let mut class = String::new();
         if (i as usize) < per_round * reps {
@@ -214,7 +214,17 @@ impl Property for C17 {
                 art.ack_from_offset = Some((k * art.limit, *r.pick(&[50u64, 52, 2, 56])));
                 acc.inc("loads_with_a_refused_continuation_request");
             }
-            class = format!("random limit={} size={} refused from {:?}", art.limit, size, art.ack_from_offset);
+            // the chunks after the first one may be shorter than the limit (short reads by the server, a limit lowered by
+            // another handle in the middle of the load)
+            if art.ack_from_offset.is_none() && art.limit >= 3 && size > art.limit && r.chance(1, 3) {
+                art.later_chunks = (0..r.range(1, 4)).map(|_| r.range(1, art.limit.min(64))).collect();
+                if (size - art.limit) / art.later_chunks.iter().min().copied().unwrap_or(1).max(1) > 4000 {
+                    art.later_chunks.clear();
+                } else {
+                    acc.inc("loads_with_shorter_later_chunks");
+                }
+            }
+            class = format!("random limit={} size={} refused from {:?} later chunks {:?}", art.limit, size, art.ack_from_offset, art.later_chunks);
         }
 
         let mut sc = Scenario::new("album-art", mix(&[cfg.seed, 17, i]));
@@ -226,7 +236,7 @@ impl Property for C17 {
         if i % 3 == 2 {
             for k in 0..r.range(1, 3) {
                 let u = format!("earlier song {}/{}.mp3", k, r.below(1000));
-                let mut a2 = ArtStore { embedded: None, cover: None, limit: art.limit, readpicture_supported: art.readpicture_supported, embedded_ack: 0, cover_ack: 0, ack_after_partial_output: false, ack_from_offset: None };
+                let mut a2 = ArtStore { embedded: None, cover: None, limit: art.limit, readpicture_supported: art.readpicture_supported, embedded_ack: 0, cover_ack: 0, ack_after_partial_output: false, ack_from_offset: None, later_chunks: Vec::new() };
                 match r.below(5) {
                     0 => {} // neither has data
                     1 => a2.cover = Some(picture(&mut r, 10)),
@@ -389,7 +399,7 @@ impl Property for C17 {
     fn meta(&self, _cfg: &Cfg, _acc: &Acc) -> Meta {
         Meta {
             level: "exploration",
-            rule: "Client::album_art against the simulated server holding the picture: directed grid of chunk limits {1,2,64,4096,8192} x sizes {0,1,limit-1,limit,limit+1,2*limit,3*limit+7,5000,70000} x source {embedded, cover file reached through an empty readpicture reply or through ACK 5} x MIME present (incl. the empty string)/absent; in a third of the cases the same client has first loaded the art of 1-2 OTHER songs with different outcomes (nothing, cover only, embedded, errors), whose results are checked too; a quarter of the random multi-chunk loads have a continuation request refused with an ACK, which must be propagated; every other ACK code {1,2,3,4,50,52,56} on either command (must propagate), neither source, zero-byte pictures, albumart unknown; plus random sizes/limits; payloads incl. protocol look-alikes; 0-2 other callers and notifications running concurrently, chopped replies, read caps; oracle: returned bytes and MIME equal the stored picture / None / the server's error code, and the request lines seen by the server are readpicture|albumart <uri> <offset> in the documented fallback order with offsets starting at 0, strictly increasing, never skipping bytes, finitely many (the minimal sequence 0, limit, 2*limit, ... is counted separately); non-trivial = load with >=2 chunks; distinct by (limit, size class, source, mime, concurrency)".into(),
+            rule: "Client::album_art against the simulated server holding the picture: directed grid of chunk limits {1,2,64,4096,8192} x sizes {0,1,limit-1,limit,limit+1,2*limit,3*limit+7,5000,70000} x source {embedded, cover file reached through an empty readpicture reply or through ACK 5} x MIME present (incl. the empty string)/absent; in a third of the cases the same client has first loaded the art of 1-2 OTHER songs with different outcomes (nothing, cover only, embedded, errors), whose results are checked too; a quarter of the random multi-chunk loads have a continuation request refused with an ACK, which must be propagated; a third of the others get later chunks shorter than the first one (1..limit bytes); every other ACK code {1,2,3,4,50,52,56} on either command (must propagate), neither source, zero-byte pictures, albumart unknown; plus random sizes/limits; payloads incl. protocol look-alikes; 0-2 other callers and notifications running concurrently, chopped replies, read caps; oracle: returned bytes and MIME equal the stored picture / None / the server's error code, and the request lines seen by the server are readpicture|albumart <uri> <offset> in the documented fallback order with offsets starting at 0, strictly increasing, never skipping bytes, finitely many (the minimal sequence 0, limit, 2*limit, ... is counted separately); non-trivial = load with >=2 chunks; distinct by (limit, size class, source, mime, concurrency)".into(),
             nontrivial_set: "nontrivial",
             assumptions: vec![
                 "well-behaved server: never a 0-byte chunk before the end, constant `size`".into(),
